@@ -166,6 +166,8 @@ SPEC = dict(
          "(5) every byte of 11 single-byte encodings and 52 alias spellings; every 1- and 2-byte (and incomplete-prefix 3/4-byte) sequence of 6 ICU multi-byte encodings. "
          "(6) split: every word of length <= 3 (quick) / 4 (thorough) over 8 characters (1..4 bytes, BMP and supplementary) x 22 encodings x every split offset x every maxChars, every "
          "prefix through TranscodeFromStr, TranscodeToStr, source blocks 1..4 x output blocks 1..8. "
+         "Tiny external entities: external general entities and external DTD subsets whose whole payload is 1..8 characters (12 payloads incl. one supplementary character and blanks) "
+         "in UTF-8 / UTF-16LE / UTF-16BE / UCS-4LE / UCS-4BE, without (UTF-8) and with byte-order mark: content equal to the inline form (the document entity can never be that short). "
          "Document level: 22 documents (two larger than every reader buffer) x 22 encodings x BOM {absent,present} x declaration {absent, canonical, alias spellings, generic family name, "
          "contradictory family} -> SAX2 dump equal to the UTF-8 baseline dump or fatal; legal variants must succeed; contradictions must be reported; 49 illegal/over-long/surrogate/"
          "out-of-range sequences x 8 syntactic positions plus 19 truncated tails at end of input must be fatal; UTF-16 documents whose text is a unit pair (18 first units x 182 / 65536 second units x LE/BE). "
@@ -197,6 +199,7 @@ SPEC = dict(
             _x("icu-multibyte-sequences", "--space", "mbcs"),
             _x("split-streams", "--space", "split", "--k", 3),
             _d("documents", "--space", "docs", "--mode", "quick"),
+            _d("tiny-external-entities", "--space", "tinyent"),
             _d("illegal-sequences-in-documents", "--space", "bad"),
             _d("utf16-document-pairs", "--space", "surr", "--mode", "quick"),
         ] + WITNESSES,
@@ -213,6 +216,7 @@ SPEC = dict(
             _x("icu-multibyte-sequences", "--space", "mbcs"),
             _x("split-streams-k4", "--space", "split", "--k", 4),
             _d("documents", "--space", "docs", "--mode", "thorough"),
+            _d("tiny-external-entities", "--space", "tinyent"),
             _d("illegal-sequences-in-documents", "--space", "bad"),
             _d("documents-cut-inside-character", "--space", "trunc"),
             _d("utf16-document-pairs", "--space", "surr", "--mode", "thorough"),
